@@ -309,6 +309,26 @@ namespace plan
         t += s->text + "\n";
       return t;
     }
+    // another equivalent formulation: every disjunction statement gets one more disjunct that can never be chosen (a goal
+    // whose rule is `false`); declarations first, everything else in the original order. Empty when there is no disjunction
+    std::string variant_with_dead_disjunct() const
+    {
+      std::string t = (m.decl_text.empty() ? std::string() : m.decl_text.back()) + "predicate Never0() {\n  false;\n}\n";
+      bool any = false;
+      int k = 0;
+      for (auto &s : m.stmts)
+        if (s.k == Stmt::DECL)
+          t += s.text + "\n";
+      for (auto &s : m.stmts)
+        if (s.k == Stmt::DISJ)
+        {
+          any = true;
+          t += s.text + " or { goal never" + std::to_string(k++) + " = new Never0(); }\n";
+        }
+        else if (s.k == Stmt::FORMULA || s.k == Stmt::ASSERT)
+          t += s.text + "\n";
+      return any ? t : std::string();
+    }
   };
 
   inline void Builder::apply(const Op &op)
